@@ -278,6 +278,10 @@ func (g *tgen) scalarType() *TType {
 }
 
 func (g *tgen) keyType() *TType {
+	if g.o.StructMapKeys && len(g.sch.Structs) > 0 && g.t.Chance(1, 3, "key.struct") {
+		// legal Thrift, not expressible in JSON: only worlds that never render the value as JSON ask for it
+		return &TType{Kind: tSTRUCT, St: g.sch.Structs[g.t.Intn(len(g.sch.Structs), "key.struct.which")]}
+	}
 	ks := g.o.KeyKinds
 	if len(ks) == 0 {
 		ks = []byte{tSTRING, tI64, tI32, tI16, tBYTE}
